@@ -1,4 +1,5 @@
 #!/bin/bash
+# usage: run_seeds.sh [workdir]   (ALL=1 for every check against every change)
 # Runs every kept seeded change (/verif/seeded/*/patch.diff) against all claimed checks, in scratch copies of
 # /repo and /verif (nothing is applied to /repo itself). Writes /verif/seeded/RESULTS.tsv.
 set -u
@@ -19,7 +20,10 @@ for d in /verif/seeded/*/; do
   rsync -a --exclude evidence --exclude replays --exclude seeded $W/base_verif/ $W/verif/
   if ! (cd $W/repo && patch -p1 -s --no-backup-if-mismatch < $d/patch.diff >/dev/null 2>&1); then echo -e "$id\tPATCH-DOES-NOT-APPLY" >> $out.tmp; continue; fi
   caught=""
-  for p in $props; do
+  own=${id%%-*}
+  plist=$props
+  [ -z "${ALL:-}" ] && plist=$own   # default: the seed's own property; ALL=1 runs every claimed check (cross alarms)
+  for p in $plist; do
     res=$(GVC_REPO=$W/repo GVC_VERIF=$W/verif $W/gvc check $p 2>&1)
     rc=$?
     if [ $rc -eq 1 ]; then
